@@ -33,6 +33,7 @@ operand sharing of ufl/exprequals.py; per-terminal-class projection table).
 
 from __future__ import annotations
 
+import copy
 import itertools
 import json
 import pickle
@@ -859,6 +860,8 @@ XWalk = {xwalk}
 LitMax = {litmax}
 LitFocus = {litfocus}
 LitCoerce = {litcoerce}
+LitNewArgs = {litnewargs}
+LitShapes = {litshapes}
 ProjTable <- MCProjTable
 SPECIFICATION Spec
 {checks}
@@ -870,25 +873,32 @@ FULL = "{1, 2}"
 
 
 LIT_CLASSES = ("IntValue", "FloatValue", "ComplexValue")
+FLY_CLASSES = ("Zero", "MultiIndex")
+# the classes whose objects go through pickle in the literal mode (LitNewArgs of EqShare.tla)
+NEWARGS_CLASSES = LIT_CLASSES + FLY_CLASSES
 
 
 def run_eqshare(mode="heap", n=3, mt=3, proj=(FULL, FULL, FULL), mh=0, wr=True, invs=(), props=(), table="<< >>",
                 extra="", x=None, lit=None, **kw):
     """x = None: no attributed operators; else (XEq, XHash, XWalk).
-    lit (mode "lit") = (LitMax, LitFocus, LitCoerce)."""
+    lit (mode "lit") = (LitMax, LitFocus, LitCoerce[, LitNewArgs[, LitShapes]])."""
     B = lambda v: "TRUE" if v else "FALSE"  # noqa: E731
     checks = "\n".join("INVARIANT " + i for i in invs) + "\n" + "\n".join("PROPERTY " + p for p in props)
-    lmax, lfocus, lcoerce = lit or (1, True, LIT_CLASSES)
+    lit = tuple(lit or (1, True, LIT_CLASSES))
+    lmax, lfocus, lcoerce = lit[:3]
+    lnewargs = lit[3] if len(lit) > 3 else NEWARGS_CLASSES
+    lshapes = lit[4] if len(lit) > 4 else 1
+    S = lambda xs: "{" + ", ".join(tlc.tla(c) for c in xs) + "}"  # noqa: E731
     cfg = CFG.format(mode=mode, n=n, mt=mt, eq=proj[0], hs=proj[1], rp=proj[2], mh=mh,
                      wr=B(wr), checks=checks, withx=B(x is not None), xeq=B(x and x[0]), xhash=B(x and x[1]), xwalk=B(x and x[2]),
-                     litmax=lmax, litfocus=B(lfocus), litcoerce="{" + ", ".join(tlc.tla(c) for c in lcoerce) + "}")
+                     litmax=lmax, litfocus=B(lfocus), litcoerce=S(lcoerce), litnewargs=S(lnewargs), litshapes=lshapes)
     res = tlc.run("EqShare", cfg, mc_text=MC.format(table=table, extra=extra), mc_name="MC_EqShare", **kw)
     if res.outcome == "error":
         # seen once under heavy machine load (JVM start); a genuine error is deterministic
         print("  tlc error, retrying once; tail of output:\n" + "\n".join(res.stdout.splitlines()[-15:]), flush=True)
         res = tlc.run("EqShare", cfg, mc_text=MC.format(table=table, extra=extra), mc_name="MC_EqShare", **kw)
     if mode == "lit":
-        print(f"  tlc EqShare mode=lit LitMax={lmax} focus={lfocus} coerce={list(lcoerce)} {kw.get('simulate') or 'exhaustive'} "
+        print(f"  tlc EqShare mode=lit LitMax={lmax} focus={lfocus} coerce={list(lcoerce)} newargs={list(lnewargs)} shapes=0..{lshapes} {kw.get('simulate') or 'exhaustive'} "
               f"checks={list(invs) + list(props)} -> {res.outcome}{' ' + str(res.violated) if res.violated else ''} "
               f"distinct={res.distinct} generated={res.generated} {res.wall:.1f}s", flush=True)
         return res
@@ -1570,6 +1580,25 @@ def probe_lit_coerce():
     return tuple(out)
 
 
+def probe_lit_newargs():
+    """Which classes hand ALL the arguments of their constructor to __new__ when an object is unpickled / copied
+    (__getnewargs__, read off the real code)."""
+    i7 = UC.Index(7)
+    probes = {
+        "IntValue": (lambda: UC.IntValue(1000003), (1000003,)),
+        "FloatValue": (lambda: UC.FloatValue(2.5), (2.5,)),
+        "ComplexValue": (lambda: UC.ComplexValue(1 + 2j), (1 + 2j,)),
+        "Zero": (lambda: UC.Zero((2,), (7,), (3,)), ((2,), (7,), (3,))),
+        "MultiIndex": (lambda: UC.MultiIndex((UC.FixedIndex(1), i7)), ((UC.FixedIndex(1), i7),)),
+    }
+    out = []
+    for cls in NEWARGS_CLASSES:
+        make, want = probes[cls]
+        if _try(lambda: tuple(make().__getnewargs__())) == want:
+            out.append(cls)
+    return tuple(out)
+
+
 def lit_numbers(rng):
     """Concrete numbers for the abstract slots of one behaviour (both signs; 99 / 100 at the flyweight bound)."""
     s = rng.randint(2, 98)
@@ -1625,10 +1654,76 @@ _LIT_API = {"IntValue": lambda a: UC.IntValue(a), "FloatValue": lambda a: UC.Flo
             "ComplexValue": lambda a: UC.ComplexValue(a), "as_ufl": lambda a: ufl.as_ufl(a)}
 
 
+ZERO_ID, MULTIINDEX_ID = 99, 119  # AmbId of EqShare.tla: identity of the ambient flyweight of shape code sh is base + sh
+PICKLE_SURFACES = ("pickle2", "pickle3", "pickle4", "pickle5", "pickle-default", "copy", "deepcopy")
+
+
+def fly_concrete(rng):
+    """Concrete shapes / tuples of fixed indices and free-index sets for the abstract codes sh, fi of one behaviour.
+    The free-index sets 1 and 2 differ in the index, in its dimension only, or in the number of indices."""
+    s1, s2 = rng.choice([((2,), (3,)), ((2,), (2, 2)), ((3, 3), (3,)), ((2, 2), (2, 3)), ((3,), (2,))])
+    i = rng.randint(10, 40)
+    j = i + rng.randint(1, 5)
+    a, b = rng.sample(range(0, 3), 2)
+    fA = ((i,), (2,))
+    fB = rng.choice([((j,), (2,)), ((i,), (3,)), ((i, j), (2, 2)), ((i, j), (2, 3))])
+    mA = (i,)
+    mB = {((j,), (2,)): (j,), ((i,), (3,)): (j,)}.get(fB) or rng.choice([(i, j), (j, i)])
+    return {"Zero": {"sh": [(), s1, s2], "fi": [((), ()), fA, fB]},
+            "MultiIndex": {"sh": [(), (a,), rng.choice([(b,), (a, b)])], "fi": [(), mA, mB]}}
+
+
+def fly_object(cls, sh, fi, conc, rng):
+    """-> (object, text of the call): the constructor call of a flyweight class, in one of its surface forms."""
+    c = conc[cls]
+    if cls == "MultiIndex":
+        idx = tuple(UC.FixedIndex(v) for v in c["sh"][sh]) + tuple(UC.Index(k) for k in c["fi"][fi])
+        return UC.MultiIndex(idx), f"MultiIndex({idx!r})"
+    shape, (ids, dims) = c["sh"][sh], c["fi"][fi]
+    if not ids:
+        form = rng.choice(["Zero(shape)", "zero(*shape)", "zero(shape)", "Zero(shape, (), ())", "Zero(shape, (), None)"])
+        z = {"Zero(shape)": lambda: UC.Zero(shape), "zero(*shape)": lambda: ufl.zero(*shape), "zero(shape)": lambda: ufl.zero(shape),
+             "Zero(shape, (), ())": lambda: UC.Zero(shape, (), ()), "Zero(shape, (), None)": lambda: UC.Zero(shape, (), None)}[form]()
+        return z, f"{form} with shape={shape!r}"
+    form = rng.choice(["Zero(shape, ids, dims)", "Zero(shape, Index objects, {Index: dim})", "Zero(shape) * w[indices]", "w[indices] * Zero(shape)"])
+    if form == "Zero(shape, ids, dims)":
+        z = UC.Zero(shape, ids, dims)
+    elif form.startswith("Zero(shape, Index"):
+        z = UC.Zero(shape, tuple(UC.Index(k) for k in ids), {UC.Index(k): d for k, d in zip(ids, dims)})
+    else:
+        w = UC.Coefficient(mk_space(shape=dims), 77)[tuple(UC.Index(k) for k in ids)]
+        z = UC.Zero(shape) * w if form.startswith("Zero") else w * UC.Zero(shape)
+    return z, f"{form} with shape={shape!r}, ids={ids!r}, dims={dims!r}"
+
+
+def _slot_state(x):
+    """The slots of an object (what pickle saves and writes back)."""
+    out = {}
+    for k in type(x).__mro__:
+        for name in getattr(k, "__slots__", ()):
+            if name != "__weakref__" and hasattr(x, name):
+                out[name] = getattr(x, name)
+    return out
+
+
+def _trip(surface, y):
+    if surface == "evalrepr":
+        return eval(repr(y), dict(_ns()))  # noqa: S307
+    if surface == "copy":
+        return copy.copy(y)
+    if surface == "deepcopy":
+        return copy.deepcopy(y)
+    if surface == "pickle-default":
+        return pickle.loads(pickle.dumps(y))
+    return pickle.loads(pickle.dumps(y, int(surface[-1])))
+
+
 def replay_literals(ctx, doc, seed, tamper=None):
-    """Execute one TLC behaviour of constructor calls on the real constructors.  The numbers below the flyweight
-    bound that it uses are taken out of IntValue._cache before (a behaviour starts as in a fresh interpreter) and
-    the previous entries are put back afterwards."""
+    """Execute one TLC behaviour of constructor calls and round trips on the real constructors.  The numbers below the
+    flyweight bound that it uses are taken out of IntValue._cache before (a behaviour starts as in a fresh interpreter)
+    and the previous entries are put back afterwards; the flyweight zeros / fixed multi-indices of the shapes it uses
+    are created before (the ambient objects of EqShare.tla).  Should the behaviour damage an ambient object (reported as
+    a violation), its slots are written back afterwards, so that the rest of the run is about the code, not the damage."""
     steps = doc["steps"]
     rng = random.Random(seed)
     num, imv = lit_numbers(rng)
@@ -1639,36 +1734,69 @@ def replay_literals(ctx, doc, seed, tamper=None):
     for st in steps:
         if st["slot"] in (LONE, LS) and num[st["slot"]] not in saved:
             saved[num[st["slot"]]] = cache.pop(num[st["slot"]], _MISSING)
+    conc = fly_concrete(random.Random(seed ^ 0x5F3759DF))
+    amb, amb_state = {}, {}
+    for sh in range(3):
+        amb[ZERO_ID + sh] = UC.Zero(conc["Zero"]["sh"][sh])
+        amb[MULTIINDEX_ID + sh] = UC.MultiIndex(tuple(UC.FixedIndex(v) for v in conc["MultiIndex"]["sh"][sh]))
+    for k, a in amb.items():
+        hash(a)
+        amb_state[k] = _slot_state(a)
     try:
         with warnings.catch_warnings():
             warnings.simplefilter("ignore")
-            return _replay_literals(ctx, doc, seed, rng, num, imv, tamper)
+            return _replay_literals(ctx, doc, seed, rng, num, imv, tamper, conc, amb)
     finally:
         for n, old in saved.items():
             cache.pop(n, None)
             if old is not _MISSING:
                 cache[n] = old
+        for k, a in amb.items():
+            for name, v in amb_state[k].items():
+                if getattr(a, name, _MISSING) is not v:
+                    setattr(a, name, v)
+        for sh in range(3):
+            UC.Zero._cache[conc["Zero"]["sh"][sh]] = amb[ZERO_ID + sh]
+            UC.MultiIndex._cache[conc["MultiIndex"]["sh"][sh]] = amb[MULTIINDEX_ID + sh]
 
 
-def _replay_literals(ctx, doc, seed, rng, num, imv, tamper):
+def _replay_literals(ctx, doc, seed, rng, num, imv, tamper, conc, amb):
     steps = doc["steps"]
     rp = {"kind": "literal", "seed": seed, "doc": doc}
     O, ref, calls = [], [], []
     checks = 0
     nontrivial = False
+    amb_ref = {k: observe(a) for k, a in amb.items()}
     for i, st in enumerate(steps):
-        arg = lit_argument(st["src"], num[st["slot"]], imv if st["im"] else 0.0, rng)
-        call = f"{st['api']}({arg!r} : {type(arg).__name__})"
+        of = st.get("of", 0)
+        kind = st["api"] if of else "create"
         try:
             with warnings.catch_warnings():
                 warnings.simplefilter("ignore")
-                x = _LIT_API[st["api"]](arg)
+                if of:
+                    surface = rng.choice(PICKLE_SURFACES) if st["api"] == "pickle" else "evalrepr"
+                    call = f"{surface} round trip of [{calls[of - 1]}]"
+                    x = _trip(surface, O[of - 1])
+                elif st["api"] in FLY_CLASSES:
+                    call = f"{st['api']}(shape code {st['sh']}, free indices code {st['fi']})"
+                    x, call = fly_object(st["api"], st["sh"], st["fi"], conc, rng)
+                else:
+                    arg = lit_argument(st["src"], num[st["slot"]], imv if st["im"] else 0.0, rng)
+                    call = f"{st['api']}({arg!r} : {type(arg).__name__})"
+                    x = _LIT_API[st["api"]](arg)
         except Exception as e:  # noqa: BLE001
-            V(ctx, f"C13:literal-constructor-raises:{st['api']}:{st['src']}:{type(e).__name__}",
-              f"{call} raises {type(e).__name__}: {e}", rp)
+            if of:
+                V(ctx, f"C13:{st['api']}:{st['cls']}:raises", f"{call} raises {type(e).__name__}: {e}", rp)
+            else:
+                V(ctx, f"C13:literal-constructor-raises:{st['api']}:{st['src']}:{type(e).__name__}",
+                  f"{call} raises {type(e).__name__}: {e}", rp)
             return checks
         if tamper == "raw-value" and isinstance(x, UC.IntValue) and st["src"] != "int" and abs(num[st["slot"]]) >= 100:
             x._value = arg  # selftest: an object as a constructor without conversion would leave it
+        if tamper == "restore-onto-flyweight" and of and isinstance(x, UC.Zero):
+            # selftest: an unpickler that writes the saved slots onto the cached zero of the same shape
+            for name, v in _slot_state(x).items():
+                setattr(UC.Zero(x.ufl_shape), name, v)
         ox = observe(x)
         O.append(x)
         ref.append(ox)
@@ -1680,6 +1808,9 @@ def _replay_literals(ctx, doc, seed, rng, num, imv, tamper):
         if stored_type(x) != st["vt"]:
             ctx.count("literal_stored_type_not_predicted")
             ctx.cov.setdefault("literal_stored_type_not_predicted_example", {"call": call, "real": stored_type(x), "predicted": st["vt"]})
+        if (st["id"] in amb) != any(x is a for a in amb.values()) or (st["id"] in amb and x is not amb[st["id"]]):
+            ctx.count("literal_identity_not_predicted")
+            ctx.cov.setdefault("literal_identity_not_predicted_example", {"calls": call, "real": "ambient flyweight or not", "doc": doc})
         checks += 2
         if _lit_cmp("==", x, x)[0] is not True:
             V(ctx, f"C13:eq-not-reflexive:{cls}", f"{call} == itself gives {eqv(x, x)}", rp)
@@ -1705,21 +1836,29 @@ def _replay_literals(ctx, doc, seed, rng, num, imv, tamper):
                 V(ctx, f"C13:ne-inconsistent:{cls}", f"{pair}: == is {e1} but != is {n1}", rp)
             if e1 is True or e2 is True:
                 d = diff_obs(oy, ox)
-                if d:
+                if d and of == j + 1:
+                    V(ctx, f"C13:{st['api']}:{cls}:observables", f"{call} gives an == object whose {d} differ: repr {oy['repr']!r} vs {ox['repr']!r}",
+                      rp, detail={"differ": d})
+                elif d:
                     V(ctx, f"C13:literal-equal-but-differ:{cls}:{tag}:{'+'.join(d)}",
                       f"{pair} are == but their {d} differ: repr {oy['repr']!r} vs {ox['repr']!r}, "
                       f"stored value {oy.get('value')!r} vs {ox.get('value')!r}", rp, detail={"differ": d})
-            if e1 != want:
+            if e1 != want and of == j + 1:
+                V(ctx, f"C13:{st['api']}:{cls}:unequal", f"{call} gives an object that is not == the original: {y!r} vs {x!r}", rp)
+            elif e1 != want:
                 V(ctx, f"C13:literal-eq-{'spurious' if e1 else 'missing'}:{'~'.join(sorted({sj['cls'], cls}))}:{tag}",
                   f"{pair}: == gives {e1}, EqShare.tla (literal mode) predicts {want}: {y!r} vs {x!r}", rp)
             if want and (sj["api"], sj["src"]) != (st["api"], st["src"]):
                 nontrivial = True
-            # the objects returned earlier are unchanged by the later call
+        # the objects returned earlier, and the ambient flyweights, are unchanged by the call
+        for what, y, oy, ycls in ([(f"the object returned by {calls[j]}", O[j], ref[j], steps[j]["cls"]) for j in range(i)]
+                                  + [(f"the existing flyweight {amb_ref[k]['repr']}", amb[k], amb_ref[k], type(amb[k]).__name__) for k in amb]):
             now = observe(y)
+            checks += 1
             d = diff_obs(oy, now, keys=("repr", "str", "shape", "fi", "value", "hash", "sig"))
             if d:
-                V(ctx, f"C13:create-changes-object:{sj['cls']}:{'+'.join(d)}",
-                  f"after {call} the object returned by {calls[j]} changed its {d}: {oy['repr']!r} -> {now['repr']!r}", rp)
+                V(ctx, f"C13:{kind}-changes-object:{ycls}:{'+'.join(d)}",
+                  f"after {call} {what} changed its {d}: {oy['repr']!r} -> {now['repr']!r}", rp)
                 return checks
     # round trips of every returned object
     seen = []
@@ -1728,12 +1867,12 @@ def _replay_literals(ctx, doc, seed, rng, num, imv, tamper):
             continue
         seen.append(x)
         st = steps[i]
-        roundtrips(ctx, f"literal:{st['api']}({st['src']}):{st['cls']}:slot{st['slot']}", x, _ns(),
+        roundtrips(ctx, f"literal:{st['api']}({st['src']}):{st['cls']}:slot{st['slot']}:sh{st.get('osh', 0)}:fi{st.get('ofi', 0)}", x, _ns(),
                    {"source": "literal", "seed": seed, "doc": doc})
         checks += 2
     ctx.evaluated(checks)
     if nontrivial:
-        ctx.distinct("lit|" + json.dumps([(s["api"], s["src"], s["slot"], s["im"]) for s in steps]))
+        ctx.distinct("lit|" + json.dumps([(s["api"], s["src"], s["slot"], s["im"], s.get("sh", 0), s.get("fi", 0), s.get("of", 0)) for s in steps]))
     return checks
 
 
@@ -1770,7 +1909,7 @@ def lit_plans(ctx):
     inv = ["LitLaws", "LitExport"]
     P = [("pairs-same-number", dict(lit=(2, True, LIT_CLASSES), invs=inv, props=["LitStable"], workers=4), None),
          # (the simulator evaluates the invariants on every candidate successor: ~110 per step)
-         ("random", dict(lit=(8, False, LIT_CLASSES), invs=inv, workers=1, simulate="num=6" if ctx.tier == "quick" else "num=30",
+         ("random", dict(lit=(8, False, LIT_CLASSES, NEWARGS_CLASSES, 2), invs=inv, workers=1, simulate="num=6" if ctx.tier == "quick" else "num=30",
                          depth=9, seed=ctx.seed + 5), 48 if ctx.tier == "quick" else 400)]
     if ctx.tier != "quick":
         P.append(("pairs", dict(lit=(2, False, LIT_CLASSES), invs=inv, props=["LitStable"], workers=4), None))
@@ -1789,14 +1928,17 @@ def literals_start(ctx):
 def literals(ctx, futs):
     # --- the model of the constructors AS PROBED: TLC's counterexample to the laws is replayed on the real classes
     coerce = probe_lit_coerce()
+    newargs = probe_lit_newargs()
     ctx.cov["literal_constructors_converting_the_stored_value"] = list(coerce)
-    if set(coerce) != set(LIT_CLASSES):
-        res = run_eqshare(mode="lit", n=0, mt=0, lit=(2, True, coerce), invs=["LitLawsCex"], workers=1, timeout=600)
+    ctx.cov["classes_with_complete_getnewargs"] = list(newargs)
+    if set(coerce) != set(LIT_CLASSES) or set(newargs) != set(NEWARGS_CLASSES):
+        res = run_eqshare(mode="lit", n=0, mt=0, lit=(2, True, coerce, newargs), invs=["LitLawsCex"], workers=1, timeout=600)
         ctx.add_tlc(res)
         docs = tlc.decode_prints(res)
         if res.outcome == "invariant" and docs:
             ctx.count("laws_violated_by_literal_constructors_as_probed")
-            ctx.sample({"tlc_counterexample_literals": {"converting": list(coerce), "calls": [(s["api"], s["src"], s["slot"]) for s in docs[0]["steps"]]}})
+            ctx.sample({"tlc_counterexample_literals": {"converting": list(coerce), "complete_getnewargs": list(newargs),
+                                                        "calls": [(s["api"], s["src"], s["slot"], s["sh"], s["fi"], s["of"]) for s in docs[0]["steps"]]}})
             for k in range(8):
                 sink = Sink()
                 replay_literals(sink, docs[0], ctx.seed * 7919 + k)
@@ -1824,18 +1966,33 @@ def literals(ctx, futs):
                     if a["eqc"] == b["eqc"] and a["src"] != b["src"] and a["cls"] != "Zero")
         if not hits or not mixed:
             raise MachineryError(f"literal behaviours ({name}) are vacuous: {hits} flyweight hits, {mixed} equal pairs of different argument types")
+        if limit is None:
+            # every exhaustive plan: round trips of flyweights (restored object = the cached one) and of zeros /
+            # multi-indices with free indices (restored object = a new one), both ways
+            for cls in FLY_CLASSES:
+                for api in ("pickle", "evalrepr"):
+                    shared = sum(1 for d in docs for k, s in enumerate(d["steps"], start=1) if s["api"] == api and s["cls"] == cls and s["id"] != k)
+                    fresh = sum(1 for d in docs for k, s in enumerate(d["steps"], start=1) if s["api"] == api and s["cls"] == cls and s["ofi"] and s["id"] == k)
+                    if not shared or not fresh:
+                        raise MachineryError(f"literal behaviours ({name}) are vacuous: {api} round trips of {cls}: {shared} of flyweights, "
+                                             f"{fresh} of objects with free indices")
+        ctx.count(f"literal_round_trip_steps_{name}", sum(1 for d in docs for s in d["steps"] if s["of"]))
         ctx.count(f"literal_behaviours_{name}", len(docs))
         for idx, doc in enumerate(docs):
             if replay_literals(ctx, doc, ctx.seed * 1000003 + idx):
                 ctx.traces(1)
                 total += 1
             if idx < 1:
-                ctx.sample({"literal_behaviour": [(s["api"], s["src"], s["slot"], s["im"], s["cls"], s["eqc"]) for s in doc["steps"]]})
+                ctx.sample({"literal_behaviour": [(s["api"], s["src"], s["slot"], s["im"], s["sh"], s["fi"], s["of"], s["cls"], s["eqc"]) for s in doc["steps"]]})
     ctx.count("literal_behaviours_replayed", total)
     literal_observations(ctx)
     ctx.cov["literal_call_universe"] = ("api in IntValue/FloatValue/ComplexValue/as_ufl x argument type in int/bool/numpy integer/float/"
                                         "numpy float/complex/numpy complex x number in 0/1/small(<100)/large(>=100)/second large/half-integral "
-                                        "x imaginary part 0/non-0, restricted to the calls the API accepts (LitValid)")
+                                        "x imaginary part 0/non-0, restricted to the calls the API accepts (LitValid); Zero / MultiIndex x "
+                                        "shape (fixed indices) empty/two non-empty x free indices none/two different sets (differing in an index, "
+                                        "an index dimension or their number; constructor forms: new and old argument format, zero(), product of a "
+                                        "zero with an indexed coefficient); round trips pickle (protocol 2-5, default, copy.copy, copy.deepcopy) / "
+                                        "eval(repr) of an object returned by an earlier step")
 
 
 # ==========================================================================================
